@@ -120,6 +120,12 @@ type config struct {
 	// client or request level must still arrive with its configured value; what is sent for a
 	// name only the jar knows is not judged here (client.jar does that).
 	Jar []jarPre `json:"jar,omitempty"`
+	// HostPort: the URL is "http://<HostPort>/…" instead of the default host (corpus: a path
+	// parameter named like the port must not touch the authority)
+	HostPort string `json:"host_port,omitempty"`
+	// Twice: the same Request object is sent a second time (response of the first send not closed):
+	// both sends must give the same request
+	Twice bool `json:"same_request_sent_twice,omitempty"`
 }
 
 type jarPre struct {
@@ -151,6 +157,9 @@ func (cf *config) url() string {
 			parts = append(parts, q.K+"="+q.V)
 		}
 		u += "?" + strings.Join(parts, "&")
+	}
+	if cf.HostPort != "" {
+		return "http://" + cf.HostPort + u
 	}
 	if cf.UseBase {
 		return u
@@ -510,6 +519,69 @@ func genConfig(r *gen.Rand) *config {
 			cf.Client.PathP = append(cf.Client.PathP, nonEmpty())
 		}
 	}
+	if r.Chance(1, 8) && len(cf.Req.PathP)+len(cf.Client.PathP) > 0 {
+		// a path-parameter value with bytes that are special in a URL: it must still arrive as
+		// (part of) the path with that value. '/' only between other characters (no empty or dot
+		// segments, which every server normalises).
+		lv := &cf.Req
+		if len(lv.PathP) == 0 || (len(cf.Client.PathP) > 0 && r.Bool()) {
+			lv = &cf.Client
+		}
+		i := r.Intn(len(lv.PathP))
+		a, b := r.StringFrom(gen.AlphaNum, r.Range(1, 3)), r.StringFrom(gen.AlphaNum, r.Range(1, 3))
+		switch r.Intn(8) {
+		case 0:
+			lv.PathP[i].V = a + "?" + b
+		case 1:
+			lv.PathP[i].V = a + "#" + b
+		case 2:
+			lv.PathP[i].V = a + "%" + gen.Pick(r, []string{"20", "41", "2F", "3f"}) + b
+		case 3:
+			lv.PathP[i].V = a + "%" + gen.Pick(r, []string{"", "zz", "4"}) + "g" + b
+		case 4:
+			lv.PathP[i].V = a + "/" + b
+		case 5:
+			lv.PathP[i].V = a + "\\" + b
+		default:
+			// the value names another configured parameter
+			ns := cf.pathNames()
+			lv.PathP[i].V = a + ":" + gen.Pick(r, ns)
+		}
+		lv.PathP[i].Cl = clEscape
+	}
+	if len(cf.URLQuery) > 0 && r.Chance(1, 4) {
+		// a '?' inside the query the caller wrote into the URL
+		cf.URLQuery[0].V = r.StringFrom(gen.AlphaNum, r.Range(1, 3)) + "?" + r.StringFrom(gen.AlphaNum, r.Range(1, 3))
+	}
+	if r.Chance(1, 10) {
+		// headers that also have a dedicated setter or an automatic value, through the generic
+		// header API - at one level only, and only where the dedicated setter is not used
+		lv := &cf.Req
+		if r.Bool() {
+			lv = &cf.Client
+		}
+		var names []string
+		if cf.Req.UA == "" && cf.Client.UA == "" {
+			names = append(names, "User-Agent")
+		}
+		if cf.Req.Referer == "" && cf.Client.Referer == "" {
+			names = append(names, "Referer")
+		}
+		names = append(names, "Accept")
+		n := gen.Pick(r, names)
+		has := false
+		for _, l2 := range []*level{&cf.Client, &cf.Req} {
+			for _, m := range l2.Hdr {
+				if strings.EqualFold(m.K, n) {
+					has = true
+				}
+			}
+		}
+		if !has {
+			v := gen.Pick(r, []string{"mine/1.0", "text/plain", "http://ref.test/generic", r.StringFrom(gen.AlphaNum, 5)})
+			lv.Hdr = append(lv.Hdr, multi{K: n, Vs: []string{v}, Cls: []string{classOf(v)}, Mode: r.Intn(3)})
+		}
+	}
 	// body
 	cf.Body = r.PickW(4, 2, 2, 1, 1, 3, 3)
 	cf.Method = "GET"
@@ -594,6 +666,9 @@ func genConfig(r *gen.Rand) *config {
 	}
 	if cf.Style == 1 {
 		cf.toConfigStyle()
+	}
+	if cf.Style == 0 && cf.Body != bFiles && r.Chance(1, 6) {
+		cf.Twice = true
 	}
 	return cf
 }
@@ -731,6 +806,7 @@ type sendResult struct {
 	err    string
 	status int
 	p      *parsed
+	p2     *parsed // second send of the same Request object (config.Twice)
 }
 
 func (b *builder) send(cf *config) sendResult {
@@ -868,6 +944,20 @@ func (b *builder) send(cf *config) sendResult {
 		resp, err = req.Custom(url, cf.Method)
 		if err != nil {
 			client.ReleaseRequest(req)
+		}
+		if err == nil && cf.Twice {
+			// the response is not closed (closing releases the request): send the same object again
+			first := b.rig.take()
+			resp2, err2 := req.Custom(url, cf.Method)
+			if err2 != nil {
+				resp.Close()
+				return sendResult{err: "second send of the same request: " + err2.Error()}
+			}
+			client.ReleaseResponse(resp2)
+			second := b.rig.take()
+			out := sendResult{status: resp.StatusCode(), p: first, p2: second}
+			resp.Close()
+			return out
 		}
 	}
 	out := sendResult{}
@@ -1061,6 +1151,13 @@ func judgeMulti(comp string, cl, rq []multi, extra []kv, got []kv, fold bool, ex
 			continue
 		}
 		cls := worstClass(e.vals, e.cls, g, len(e.vals) > 1)
+		if comp == "header" && (k == "user-agent" || k == "referer" || k == "accept") {
+			// a header that also has a dedicated setter / an automatic value, configured through the
+			// generic header API
+			out = append(out, finding{"fidelity|header|special-name-overwritten|" + k,
+				fmt.Sprintf("header %q configured through the header API did not arrive with the configured value", k), det})
+			continue
+		}
 		if e.clSeq != "" || e.rqSeq != "" {
 			// the key was built by a sequence of Add/Set calls: that, and the level, is the class
 			switch {
@@ -1189,6 +1286,66 @@ func (cf *config) pathWith(mode int) string {
 	return sb.String()
 }
 
+// usedPathValues: the values that fill placeholders of the template (request level first).
+func (cf *config) usedPathValues() map[string]string {
+	out := map[string]string{}
+	for _, t := range cf.Tmpl {
+		if t.Param == "" {
+			continue
+		}
+		for _, lv := range []*level{&cf.Client, &cf.Req} {
+			for _, s := range lv.PathP {
+				if s.K == t.Param {
+					out[t.Param] = s.V
+				}
+			}
+		}
+	}
+	return out
+}
+
+func (cf *config) pathValueHas(sub string) bool {
+	for _, v := range cf.usedPathValues() {
+		if strings.Contains(v, sub) {
+			return true
+		}
+	}
+	return false
+}
+
+// hostilePathClass names the URL-special byte class in a used path-parameter value.
+func (cf *config) hostilePathClass() string {
+	pct := false
+	for _, v := range cf.usedPathValues() {
+		for i := 0; i+2 < len(v); i++ {
+			if v[i] == '%' && unhex(v[i+1]) >= 0 && unhex(v[i+2]) >= 0 {
+				pct = true
+			}
+		}
+	}
+	switch {
+	case cf.pathValueHas("?"):
+		return "question-mark"
+	case cf.pathValueHas("#"):
+		return "hash"
+	case pct:
+		return "percent-escape"
+	}
+	return ""
+}
+
+// resubstituted: a used value contains ":name" of another configured parameter.
+func (cf *config) resubstituted() bool {
+	for _, v := range cf.usedPathValues() {
+		for _, n := range cf.pathNames() {
+			if strings.Contains(v, ":"+n) {
+				return true
+			}
+		}
+	}
+	return false
+}
+
 func (cf *config) pathNames() []string {
 	seen := map[string]bool{}
 	var ns []string
@@ -1255,7 +1412,14 @@ func (cf *config) judge(p *parsed) []finding {
 	if want := cf.pathWith(0); p.Path != want {
 		det := map[string]any{"template": cf.rawTemplate(), "client": cf.Client.PathP, "request": cf.Req.PathP,
 			"expected": strconv.QuoteToASCII(want), "received": strconv.QuoteToASCII(p.Path), "raw_uri": strconv.QuoteToASCII(p.RawURI)}
+		hostile := cf.hostilePathClass()
 		switch {
+		case cf.resubstituted():
+			out = append(out, finding{"fidelity|path-param|value-substituted-again",
+				"a path-parameter value that contains \":name\" of another parameter was substituted a second time", det})
+		case hostile != "":
+			out = append(out, finding{"fidelity|path-param|value-needs-escaping|" + hostile,
+				"a path-parameter value with a byte that is special in a URL did not arrive as a path segment with that value", det})
 		case p.Path == cf.pathWith(2):
 			out = append(out, finding{"precedence|path-param|empty-request-value", "an empty request-level path parameter did not override the client-level value", det})
 		case p.Path == cf.pathWith(1):
@@ -1267,8 +1431,28 @@ func (cf *config) judge(p *parsed) []finding {
 			out = append(out, finding{"fidelity|path-param|altered|" + cf.pathClass(), "path differs from template with parameters substituted", det})
 		}
 	}
+	if cf.HostPort != "" {
+		for _, h := range p.Hdr {
+			if h.K == "host" && h.V != cf.HostPort {
+				out = append(out, finding{"fidelity|path-param|substituted-in-host-port", "path-parameter substitution ran over the authority of the URL",
+					map[string]any{"url": cf.url(), "host_header": h.V, "client": cf.Client.PathP, "request": cf.Req.PathP}})
+			}
+		}
+	}
 	// query: URL literal + client + request, additive
-	out = append(out, judgeMulti("query", cf.Client.Query, cf.Req.Query, cf.URLQuery, p.Query, false, true)...)
+	qf := judgeMulti("query", cf.Client.Query, cf.Req.Query, cf.URLQuery, p.Query, false, !cf.pathValueHas("?"))
+	urlQ := false
+	for _, q := range cf.URLQuery {
+		if strings.Contains(q.V, "?") {
+			urlQ = true
+		}
+	}
+	if urlQ && len(qf) > 0 {
+		// one class of its own: the caller's URL has a second '?' inside its query
+		qf = []finding{{"fidelity|query|url-with-second-question-mark", "the query of the URL given by the caller was cut at its second '?'",
+			map[string]any{"url": cf.url(), "received": p.Query}}}
+	}
+	out = append(out, qf...)
 	// headers: configured keys must carry exactly the configured values
 	var hdrGot []kv
 	conf := map[string]bool{}
@@ -1299,7 +1483,7 @@ func (cf *config) judge(p *parsed) []finding {
 		if want == "" {
 			// nothing configured: a referer must not appear from nowhere (the user agent has a
 			// default, which is not judged)
-			if got, _ := hv(x.name); x.comp == "referer" && len(got) > 0 && strings.Join(got, "") != "" {
+			if got, _ := hv(x.name); x.comp == "referer" && !conf["referer"] && len(got) > 0 && strings.Join(got, "") != "" {
 				out = append(out, finding{"fidelity|referer|unconfigured-value-arrived", "a Referer arrived although none is configured at either level",
 					map[string]any{"received": hx(got)}})
 			}
@@ -1618,6 +1802,17 @@ func (fe *fidEngine) runConfig(c *ev.Case, cf *config, builds int) {
 			report(f)
 		}
 		cn := res.p.canon()
+		if cf.Twice && res.p2 != nil {
+			c2 := res.p2.canon()
+			for _, comp := range []string{"method", "path", "query", "header", "cookie", "form", "file", "body"} {
+				if c2[comp] != cn[comp] {
+					report(finding{"determinism|same-request-sent-twice|" + comp, "the same Request object sent twice produced two different requests",
+						map[string]any{"component": comp, "first_send": cn[comp], "second_send": c2[comp]}})
+				}
+			}
+		} else if cf.Twice {
+			report(finding{"determinism|same-request-sent-twice|not-delivered", "the second send of the same Request did not reach the server", map[string]any{}})
+		}
 		if first == nil {
 			first = cn
 			if i == 0 {
